@@ -70,11 +70,13 @@ def new_chunk(v: CalibrateView, stmt: ast.stmt, attr: str) -> ast.expr | None:
 def r1_writers(ctx: Context, v: CalibrateView) -> None:
     prog = ctx.prog
     allowed = {"__init__", "calibrate", "restore_from_checkpoint"}
+    roots = {f"black_it.calibrator:Calibrator.{a}" for a in allowed}
     n_sites = 0
     for attr in [*HISTORY, *COUNTERS]:
         for f, stmt, recv, value in attr_store_sites(prog, attr, include_plot=True):
             n_sites += 1
-            ok = f.cls is not None and f.cls.name == "Calibrator" and f.name in allowed
+            # the three entry points, or a private helper that is called from nowhere else (who-may-call closure over the resolved call graph)
+            ok = f.cls is not None and f.cls.name == "Calibrator" and (f.name in allowed or prog.only_reached_from(f, roots))
             ctx.check(ok, "R1.who-may-write", f"{f.qualname.split(':')[1]}:{attr}", f"{attr} written in Calibrator.{f.name}",
                       f"`{src(stmt)[:80]}` writes the history attribute {attr} outside __init__/calibrate/restore_from_checkpoint", f, stmt)
     ctx.floor("R1", "stores to history attributes and counters", n_sites, 7 * 3)
